@@ -511,6 +511,26 @@ fn two_program_directories(acc: &mut Acc) {
                 }
             }
         }
+        // the working directory of the process no longer exists (removed after the process
+        // entered it): nothing about a program given by absolute path depends on it
+        for (d, dir) in dirs.iter().enumerate() {
+            let gone = base.join(format!("gone{}", d));
+            let _ = std::fs::create_dir_all(&gone);
+            let prog = dir.join("show.scm");
+            acc.evals += 1;
+            acc.transitions += 1;
+            let out = std::process::Command::new("sh").arg("-c").arg(format!("cd '{}' && rmdir '{}' && exec '{}' '{}'", gone.display(), gone.display(), bin, prog.display())).output();
+            let (stdout, code, stderr) = match &out {
+                Ok(o) => (String::from_utf8_lossy(&o.stdout).to_string(), o.status.code(), String::from_utf8_lossy(&o.stderr).to_string()),
+                Err(e) => (format!("spawn failed: {}", e), None, String::new()),
+            };
+            if stdout.trim() != format!("{}", d + 1) || code != Some(0) {
+                acc.mismatch(
+                    Mismatch { idx: u64::MAX - 102, case: format!("[binary, working directory removed] ruschm {} (imports ({}))", prog.display(), NAMES[d]), expected: format!(": prints {} and exits 0", d + 1), observed: format!("stdout {:?} status {:?} stderr {:?}", stdout, code, stderr), payload: json!({"programs": [d]}) },
+                    None,
+                );
+            }
+        }
     } else {
         acc.notes.push(format!("binary {} not built: the program-directory check ran through the library interface only", bin));
     }
@@ -572,6 +592,20 @@ fn file_shape_ladder(acc: &mut Acc, top: usize) {
         (vec!["(import (foo 1))", "f1"], "an error for the import (the file defines (foo |1|), not (foo 1)) and f1 unbound", |g| g[0].starts_with("error") && g[1].starts_with("error")),
         (vec!["(import (foo |1|))", "f1"], "foo-bar-1", |g| g[1] == "foo-bar-1"),
     ];
+    // healthy libraries of less common shapes: several begin declarations with a private macro
+    // defined in one and used in a later one, exports before / between / after the bodies, an empty
+    // begin, a body that ends in an expression
+    std::fs::write(base.join("shape1.sld"), "(define-library (shape1)\n  (begin (define-syntax twice (syntax-rules () ((twice e) (quote (e e))))))\n  (export s1)\n  (begin)\n  (begin (define s1 (twice x))))\n").unwrap();
+    std::fs::write(base.join("shape2.sld"), "(define-library (shape2)\n  (export s2)\n  (begin (define hidden 4))\n  (export s2b)\n  (begin (define s2 hidden) (define s2b 'b) 'trailing-expression))\n").unwrap();
+    std::fs::write(base.join("shape3.sld"), "(define-library (shape3) (import (shape1)) (import (shape2)) (export s3) (begin (define s3 s2)) (begin (define unused s1)))\n").unwrap();
+    let shapes: Vec<(Vec<&str>, &str, fn(&[String]) -> bool)> = vec![
+        (vec!["(import (shape1))", "s1"], "(x x)", |g| g[1] == "(x x)"),
+        (vec!["(import (shape2))", "s2"], "4", |g| g[1] == "4"),
+        (vec!["(import (shape2))", "s2b"], "b", |g| g[1] == "b"),
+        (vec!["(import (shape3))", "s3"], "4", |g| g[1] == "4"),
+        (vec!["(import (shape3) (shape1))", "s1"], "(x x)", |g| g[1] == "(x x)"),
+    ];
+    let cases: Vec<(Vec<&str>, &str, fn(&[String]) -> bool)> = cases.into_iter().chain(shapes).collect();
     for (forms, want, ok) in cases {
         let fs: Vec<String> = forms.iter().map(|s| s.to_string()).collect();
         let got = eval_in(&fs);
@@ -644,7 +678,7 @@ pub fn run(ctx: &Ctx) -> i32 {
             tier: ctx.tier_name(),
             seed: ctx.seed,
             exhaustive: true,
-            rule: format!("every directed graph (self-loops allowed) on 1 and 2 libraries with every assignment of 9 node healths (healthy, missing, faulting body, wrong name in file, syntactically broken, not UTF-8 in the first line, not UTF-8 in a comment after the complete form, path is a directory, healthy behind another library definition in the same source); library files span several lines; every graph on 3 libraries (512) with {}; the library-to-library edges written as plain names and, for all configurations on <= 2 libraries and the all-healthy graphs on 3, as only / prefix / rename / except / mixed / empty-only import sets; for each configuration every history of import attempts on one interpreter (length 3 on <= 2 libraries{}; maximal histories cover their prefixes), with the libraries as files under the program directory (decoy libraries with other values in the working directory) and as registered sources; states = configurations, transitions = import attempts; plus every sequence of <= 3 program files from three directories evaluated on one interpreter (each imports a library that lives next to it, decoys everywhere else), and each of these programs run through the built binary from another working directory; file-shape ladder: a healthy library file with a 2/3/4-byte character starting at every byte offset 1..700 (in a comment / inside a string of the body); library names whose file paths coincide ((a b) vs (a/b), (foo 1) vs (foo |1|)) stay different libraries", if ctx.thorough() { "every health assignment (729)" } else { "at most one unhealthy node (25 assignments)" }, if ctx.thorough() { ", length 3 on 3 libraries with at most one unhealthy node, otherwise 2" } else { ", length 2 on 3 libraries" }),
+            rule: format!("every directed graph (self-loops allowed) on 1 and 2 libraries with every assignment of 9 node healths (healthy, missing, faulting body, wrong name in file, syntactically broken, not UTF-8 in the first line, not UTF-8 in a comment after the complete form, path is a directory, healthy behind another library definition in the same source); library files span several lines; every graph on 3 libraries (512) with {}; the library-to-library edges written as plain names and, for all configurations on <= 2 libraries and the all-healthy graphs on 3, as only / prefix / rename / except / mixed / empty-only import sets; for each configuration every history of import attempts on one interpreter (length 3 on <= 2 libraries{}; maximal histories cover their prefixes), with the libraries as files under the program directory (decoy libraries with other values in the working directory) and as registered sources; states = configurations, transitions = import attempts; plus every sequence of <= 3 program files from three directories evaluated on one interpreter (each imports a library that lives next to it, decoys everywhere else), and each of these programs run through the built binary from another working directory; file-shape ladder: a healthy library file with a 2/3/4-byte character starting at every byte offset 1..700 (in a comment / inside a string of the body); library names whose file paths coincide ((a b) vs (a/b), (foo 1) vs (foo |1|)) stay different libraries; healthy libraries of less common shapes (several begin declarations with a private macro defined in one and used in a later one, exports between the bodies, an empty begin, a trailing expression); the binary started in a working directory that has been removed", if ctx.thorough() { "every health assignment (729)" } else { "at most one unhealthy node (25 assignments)" }, if ctx.thorough() { ", length 3 on 3 libraries with at most one unhealthy node, otherwise 2" } else { ", length 2 on 3 libraries" }),
             bounds: json!({"configurations": total, "worker_deaths": res.deaths.len()}),
             assumptions: vec!["reference loader: cyclic-import error iff a cycle is reachable through readable libraries, the underlying error kind iff an unhealthy library is reachable, either when both, success otherwise; shared dependencies are not cycles".into(), "hook H2 (verif_in_progress) gives the in-progress set".into()],
             wall_s: ctx.elapsed(),
